@@ -189,6 +189,40 @@ def _sim_run(plan, binf, out, nproc, append, W, schedule):
             "tasks": list(SCHED.task_log)}
 
 
+def _real_joblib_run(plan, binf, out, W):
+    import joblib
+    saved = (voltage.__dict__["Parallel"], voltage.__dict__["delayed"])
+    voltage.__dict__["Parallel"], voltage.__dict__["delayed"] = joblib.Parallel, joblib.delayed
+    err = None
+    try:
+        SIM.active = False
+        _destripe_call(plan, binf, out, max(2, plan["nproc"]), False, W)
+    except Exception as e:
+        import traceback
+        err = (e, traceback.format_exc())
+    finally:
+        voltage.__dict__["Parallel"], voltage.__dict__["delayed"] = saved
+        try:
+            from joblib.externals.loky import get_reusable_executor
+            get_reusable_executor().shutdown(wait=True)
+        except Exception:
+            pass
+    return {"err": err}
+
+
+def sweep_plans(tier, verif_seed):
+    """A few configurations are additionally executed under real joblib (fidelity of the stub)."""
+    from sim.common import run_seed
+    n = {"quick": 2, "thorough": 10}[tier]
+    for i in range(n):
+        p = gen_plan(run_seed(verif_seed, PROP + "-real", i), tier)
+        p["append"] = False
+        p["nproc"] = max(2, p["nproc"])
+        p["ns"] = min(p["ns"], 20000)
+        p["real_joblib"] = True
+        yield p
+
+
 def run_plan(plan):
     base = new_scratch("c06")
     try:
@@ -289,6 +323,20 @@ def _run(plan, base):
             _check_run(plan, tag, nproc, O, data, offset, first_bytes, nc_out, res, od, nbatches, probe, stats, sigbase)
             if tag == "sim":
                 plan_trace = [list(t) for t in res["trace"]]
+        # fidelity of the stub: the same call under real joblib (loky worker processes, OS scheduling)
+        if plan.get("real_joblib") and not plan["append"]:
+            od = base / "out_real"
+            od.mkdir()
+            real = _real_joblib_run(plan, binf, od / "destriped.bin", W)
+            if real["err"]:
+                raise RuntimeError(f"real joblib run failed: {real['err'][1][-1500:]}")
+            same = (od / "destriped.bin").read_bytes() == outs["ref"].read_bytes()
+            stats["probes"]["real_joblib_runs"] = 1
+            stats["probes"]["real_joblib_agree_with_simulated"] = int(same)
+            log.append(["real", plan["nproc"], int(same)])
+            if not same:
+                raise RuntimeError("SIMULATOR-FIDELITY: output under real joblib differs from the 1-worker/simulated output "
+                                   f"(ns={ns} nbatch={plan['nbatch']} nproc={plan['nproc']}); not replayable, reported as a harness error")
         # d: byte-identical for any number of workers / schedule
         a = outs["ref"].read_bytes()
         b = outs["sim"].read_bytes()
@@ -308,7 +356,7 @@ def _run(plan, base):
     stats["outcomes"]["violation" if viol else "held"] = 1
     return {"violation": viol, "stats": stats, "digest": digest(log), "plan": xplan,
             "sample": {"plan": {k: v for k, v in plan.items() if k not in ("trace",)},
-                       "schedule_head": (log[-1][4][:12] if log else None)}}
+                       "schedule_head": next((e[4][:12] for e in reversed(log) if e[0] == "sim"), None)}}
 
 
 def _check_run(plan, tag, nproc, O, data, offset, first_bytes, nc_out, res, od, nbatches, probe, stats, sigbase):
